@@ -111,6 +111,11 @@ func cmdCheck(args []string) int {
 	e.tier = tier
 	e.workers = *workers
 	e.solverArgv = []string{"z3", "-in"}
+	e.seed = seed
+	e.samples = 12
+	if v := os.Getenv("VERIF_SAMPLES"); v != "" {
+		e.samples, _ = strconv.Atoi(v)
+	}
 	e.loadKnown(filepath.Join(verifRoot, "known_findings.json"))
 	workDir := filepath.Join(verifRoot, ".work", prop+"-"+tier)
 	os.RemoveAll(workDir)
@@ -131,6 +136,7 @@ func cmdCheck(args []string) int {
 	var violLines []string
 	replayed, reproduced := 0, 0
 	var rp *Replayer
+	sampleOK, sampleDiverged := 0, 0
 	for _, hc := range hs {
 		if *only != "" && hc.H != *only {
 			continue
@@ -175,6 +181,18 @@ func cmdCheck(args []string) int {
 		}
 		for id, n := range h.Known {
 			knownHits[id] += n
+		}
+		// translator validation: run the sampled passing paths natively
+		if len(h.SampleTapes) > 0 && !*noReplay {
+			if rp == nil {
+				rp = NewReplayer(e, workDir)
+			}
+			ok, div, bad := rp.ValidateSamples(pkgDirOf(e, h), h.Name, h.SampleTapes, filepath.Join(workDir, "samples"))
+			sampleOK += ok
+			sampleDiverged += div
+			for _, b := range bad {
+				inconclusive = append(inconclusive, fmt.Sprintf("%s: translator validation failed: a path the engine completed with all assertions proved fails natively on the same inputs (%s)", h.Name, b))
+			}
 		}
 		// replay violations
 		for i, v := range h.Viol {
@@ -223,6 +241,7 @@ func cmdCheck(args []string) int {
 	if len(skipped) > 0 {
 		cfg.Assumptions = append(cfg.Assumptions, "harnesses skipped on this tree (their unexported-name file no longer type-checks): "+strings.Join(skipped, ", "))
 	}
+	evSampleOK, evSampleDiv = sampleOK, sampleDiverged
 	writeEvidence(prop, tier, seed, cfg, runs, violations, replayed, reproduced, crossN, crossBad, inconclusive, time.Since(t0), e)
 	os.RemoveAll(workDir)
 	for _, l := range violLines {
@@ -317,7 +336,9 @@ func writeEvidence(prop, tier string, seed int, cfg *PropCfg, runs []*HarnessRun
 	cov := map[string]interface{}{
 		"states":                        max1(states),
 		"transitions":                   max1(transitions),
-		"traces_validated_against_impl": reproduced,
+		"traces_validated_against_impl": reproduced + evSampleOK,
+		"passing_paths_validated_natively": evSampleOK,
+		"passing_paths_not_comparable":     evSampleDiv,
 		"samples":                       samples,
 		"exhaustive":                    exhaustive && len(inconclusive) == 0,
 		"explanation": "states = feasible paths of the harnesses explored to completion by symbolic execution of the go/ssa form of the current /repo tree; " +
@@ -343,6 +364,8 @@ func writeEvidence(prop, tier string, seed int, cfg *PropCfg, runs []*HarnessRun
 	b, _ := json.MarshalIndent(ev, "", " ")
 	os.WriteFile(filepath.Join(verifRoot, "evidence", prop+".json"), b, 0o644)
 }
+
+var evSampleOK, evSampleDiv int
 
 func max1(n int) int {
 	if n < 1 {
@@ -370,11 +393,29 @@ import (
 	"fmt"
 	"os"
 	"strconv"
+	"strings"
 	"testing"
 )
 
 func TestVerifReplay(t *testing.T) {
 	name := os.Getenv("VERIF_HARNESS")
+	if list := os.Getenv("VERIF_TAPELIST"); list != "" {
+		b, _ := os.ReadFile(list)
+		for i, p := range strings.Fields(string(b)) {
+			vSetTapeFile(p)
+			var fails []string
+			var pmsg, stop string
+			// several runs per tape: Go randomises map iteration, the property must hold under every order
+			for k := 0; k < 12; k++ {
+				fails, pmsg, stop = vRunReplay(name)
+				if len(fails) > 0 || pmsg != "" || stop != "" {
+					break
+				}
+			}
+			fmt.Printf("VERIF-SAMPLE %%d fails=%%q panic=%%q stop=%%q\n", i, fails, pmsg, stop)
+		}
+		return
+	}
 	n, _ := strconv.Atoi(os.Getenv("VERIF_REPEAT"))
 	if n < 1 {
 		n = 1
@@ -498,6 +539,57 @@ func (r *Replayer) Replay(pkgDir, harness, tape string, v *Violation) (bool, str
 		}
 	}
 	return false, line
+}
+
+// ValidateSamples runs sampled passing paths natively: ok = passed natively as well,
+// diverged = the native run took a different route through the harness (tape mismatch,
+// e.g. Go's random map order), bad = native assertion failure or panic.
+func (r *Replayer) ValidateSamples(pkgDir, harness string, tapes [][]interface{}, dir string) (ok, diverged int, bad []string) {
+	bin, berr := r.build(pkgDir)
+	if berr != "" {
+		return 0, 0, []string{berr}
+	}
+	os.MkdirAll(dir, 0o755)
+	var paths []string
+	for i, t := range tapes {
+		p := filepath.Join(dir, fmt.Sprintf("%s-%d.json", harness, i))
+		jb, _ := json.Marshal(map[string]interface{}{"tape": t})
+		os.WriteFile(p, jb, 0o644)
+		paths = append(paths, p)
+	}
+	list := filepath.Join(dir, harness+".list")
+	os.WriteFile(list, []byte(strings.Join(paths, "\n")), 0o644)
+	cmd := exec.Command(bin, "-test.run", "^TestVerifReplay$", "-test.count=1", "-test.timeout=300s")
+	cmd.Dir = filepath.Join(r.e.repo, pkgDir)
+	env := append(goEnv(), "VERIF_TAPELIST="+list, "VERIF_HARNESS="+harness, "VERIF_TIER="+r.e.tier)
+	for id := range r.e.known {
+		env = append(env, "VERIF_KNOWN_"+id+"=1")
+	}
+	cmd.Env = env
+	out, _ := cmd.CombinedOutput()
+	seen := 0
+	for _, l := range strings.Split(string(out), "\n") {
+		if !strings.HasPrefix(l, "VERIF-SAMPLE") {
+			continue
+		}
+		seen++
+		switch {
+		case strings.Contains(l, `fails=[]`) && strings.Contains(l, `panic=""`) && strings.Contains(l, `stop=""`):
+			ok++
+		case strings.Contains(l, "tape kind mismatch") || strings.Contains(l, "tape exhausted") || strings.Contains(l, "assumption not satisfied"):
+			diverged++
+		default:
+			bad = append(bad, l)
+		}
+	}
+	if seen < len(tapes) {
+		tail := string(out)
+		if len(tail) > 300 {
+			tail = tail[len(tail)-300:]
+		}
+		bad = append(bad, fmt.Sprintf("native sample run ended after %d of %d samples: %s", seen, len(tapes), tail))
+	}
+	return
 }
 
 func firstLine(s string) string {
